@@ -381,6 +381,9 @@ func (x *Exec) specField(base Val, name string, env *Env) Val {
 }
 
 func (x *Exec) specIndex(base, idx Val, env *Env) Val {
+	if base.K == KArr {
+		return specInt(sx("select", base.T, idx.T))
+	}
 	if base.K != KSlice {
 		bail("indexing a non-slice in spec")
 	}
@@ -642,6 +645,9 @@ func (x *Exec) evalCall(e *Expr, env *Env) Val {
 	case "issentinel":
 		a := args()[0]
 		return specBool(sx("(_ is ErrSentinel)", a.T))
+	case "isio":
+		a := args()[0]
+		return specBool(sx("(_ is ErrIO)", a.T))
 	case "isother":
 		a := args()[0]
 		return specBool(sx("(_ is ErrOther)", a.T))
@@ -668,6 +674,11 @@ func (x *Exec) evalCall(e *Expr, env *Env) Val {
 		as := args()
 		h := x.heapFor(env, "FBLEN", "(Array Int Int)")
 		return specInt(sx("select", h, x.termOf(as[0])))
+	case "frow":
+		// frow(fb): the byte row (Array Int Int) of a file buffer
+		as := args()
+		h := x.heapFor(env, "FB", "(Array Int (Array Int Int))")
+		return Val{K: KArr, T: sx("select", h, x.termOf(as[0]))}
 	case "ghost":
 		// ghost(name, key): read of a named ghost map (Array Int Int)
 		nm := e.Args[0].Name
